@@ -15,6 +15,9 @@ for d in sorted(glob.glob("/verif/seeded/C*-*")):
             if os.path.exists(f"{d}/{f}"):
                 subprocess.run(["cp", f"{d}/{f}", f"{src}/{f}"])
 todo = sorted((os.path.basename(os.path.dirname(p)), os.path.basename(p)) for p in glob.glob("/tmp/seed_out/C*/[1-9]"))
+if "--only-k" in sys.argv:
+    ks = set(sys.argv[sys.argv.index("--only-k") + 1].split(","))
+    todo = [t for t in todo if t[1] in ks]
 extra = {"C05-4": ["C17"], "C16-1": ["C02"], "C01-4": ["C23"], "C12-4": []}
 
 
